@@ -35,7 +35,13 @@ func (cache *SHashTxCache) GetSHashTxCache(sHash string) *types.Transaction {
 
 // Remove remove tx of SHashTxCache
 func (cache *SHashTxCache) Remove(txHash string) {
-	cache.l.Remove(types.CalcTxShortHash(types.Str2Bytes(txHash)))
+	shash := types.CalcTxShortHash(types.Str2Bytes(txHash))
+	// two pooled txs may share a short hash, only the first one pushed owns the entry (see Push):
+	// removing the other one must not drop the owner's entry
+	if tx := cache.GetSHashTxCache(shash); tx == nil || string(tx.Hash()) != txHash {
+		return
+	}
+	cache.l.Remove(shash)
 	//shashlog.Debug("SHashTxCache:Remove", "shash", types.CalcTxShortHash(txhash), "txhash", common.ToHex(txhash))
 }
 
